@@ -432,7 +432,7 @@ class Frame:
 
 
 class Engine:
-    def __init__(self, loader, stubs=None, feas_timeout_ms=2000):
+    def __init__(self, loader, stubs=None, feas_timeout_ms=600):
         self.loader = loader
         self.stubs = stubs or {}
         self.feas_timeout_ms = feas_timeout_ms
@@ -1497,9 +1497,13 @@ class Engine:
                 return [it.get(i) for i in range(n.as_long())]
             if not self.pure:
                 # the path condition may fix the length (e.g. a callee contract "exactly one element")
-                for c in range(0, 4):
-                    if not self.feasible(it.n != c):
-                        return [it.get(i) for i in range(c)]
+                self.solver.set('timeout', 200)
+                try:
+                    for c in range(0, 4):
+                        if not self.feasible(it.n != c):
+                            return [it.get(i) for i in range(c)]
+                finally:
+                    self.solver.set('timeout', self.feas_timeout_ms)
             raise Unsupported('iteration over a symbolic-length sequence needs a loop invariant')
         if isinstance(it, SymRange):
             c = it.concrete()
@@ -2033,7 +2037,9 @@ class Engine:
         for g in self._guards:
             self.solver.add(g)
         self.solver.add(z3.Not(cond))
+        self.solver.set('timeout', 150)       # a valid guard is refuted at once; anything slower abandons the merge
         r = self.solver.check()
+        self.solver.set('timeout', self.feas_timeout_ms)
         self.solver.pop()
         if r != z3.unsat:
             raise Unsupported('guarded operation may be undefined')
@@ -2656,10 +2662,14 @@ def _sf_implies(eng, node, fr):
         a = eng.ztruth(eng.eval(node.args[0], fr))
         if a is False or (not isinstance(a, bool) and z3.is_false(z3.simplify(a))):
             return True
-        if not isinstance(a, bool) and not _quantified(a):
-            if not eng.feasible(a):
-                return True      # antecedent unsatisfiable under the path condition (e.g. 0 <= j < len([]))
-        b = eng.ztruth(eng.eval(node.args[1], fr))
+        try:
+            b = eng.ztruth(eng.eval(node.args[1], fr))
+        except Unsupported:
+            # the consequent is not even well-formed here (e.g. indexing an empty list): fine if the antecedent is
+            # unsatisfiable under the path condition (0 <= j < len([]))
+            if not isinstance(a, bool) and not _quantified(a) and not eng.feasible(a):
+                return True
+            raise
     finally:
         eng.pure -= 1
     return concretize(Sym(z3.Implies(a, b), BOOL))
